@@ -113,6 +113,24 @@ Fixpoint check_from (st : state) (l : list (cop * get_res * state)) : bool :=
 Definition check_seq (c : seq_case) : bool := let '(bs, l) := c in check_from (init bs) l.
 Definition seq_mismatches := mismatches_with check_seq.
 
+(* (c) a history of cache operations of which only the Get results were observed (proposer-level
+   stream: the harness is outside the package and sees what CreateProposal hands to the leader;
+   the CProposed entries are the marks the walk over the certified chain should have made) *)
+Definition res_case := (N * list (cop * get_res))%type.
+Fixpoint check_res_from (st : state) (l : list (cop * get_res)) : bool :=
+  match l with
+  | [] => true
+  | (o, r) :: rest =>
+      match o with
+      | CAdd c => res_eqb r GContinue && check_res_from (fst (step st (OAdd c))) rest
+      | CProposed b => res_eqb r GContinue && check_res_from (fst (step st (OProposed b))) rest
+      | CGet => let '(st', r') := step st OGet in res_eqb r' r && check_res_from st' rest
+      | _ => false
+      end
+  end.
+Definition check_res (c : res_case) : bool := let '(bs, l) := c in check_res_from (init bs) l.
+Definition res_mismatches := mismatches_with check_res.
+
 (* short constructors to keep the emitted terms small *)
 Definition S_ := mkState.
 Definition B_ := GBatch.
